@@ -278,6 +278,9 @@ class Executor:
         if p is None:
             raise GoPanic('nil pointer dereference')
         if p.oid not in st.mem:
+            if isinstance(p.oid, str) and not p.oid.startswith(self.pkg) and not p.path:
+                # a package-level variable of another package (strconv.ErrSyntax, io.EOF ...): an opaque constant
+                return Iface(-1, Opaque(p.oid))
             raise Unsupported('load from unknown object %r' % (p.oid,))
         v = st.mem[p.oid]
         return self._load_path(st, v, p.path)
@@ -292,12 +295,42 @@ class Executor:
                 lo = max(lo, 0)
                 hi = min(hi, len(v) - 1)
                 rest = path[n + 1:]
+                cf = self._table_closed_form(v, i, lo, hi, rest)
+                if cf is not None:
+                    return cf
                 vals = [(k, self._load_path(st, v[k], rest)) for k in range(lo, hi + 1)]
                 res = vals[-1][1]
                 for k, x in reversed(vals[:-1]):
                     res = self.vite(T.eq(i, k), x, res)
                 return res
         return v
+
+    def _table_closed_form(self, v, i, lo, hi, rest):
+        """constant integer table read at a symbolic index: if the entries in the feasible range follow
+        a + (i div d) mod m  (checked against the actual table contents), return that closed form"""
+        if hi - lo < 4 or len(rest) > 1:
+            return None
+        try:
+            vals = []
+            for k in range(lo, hi + 1):
+                x = v[k]
+                for r in rest:
+                    if not isinstance(r, int):
+                        return None
+                    x = x[r]
+                if isinstance(x, bool) or not isinstance(x, int):
+                    return None
+                vals.append(x)
+        except (IndexError, TypeError):
+            return None
+        for d, m in ((1, 10), (10, 10), (1, 100), (100, 10), (1, 1 << 62)):
+            a = vals[0] - ((lo // d) % m)
+            if all(vals[k - lo] == a + ((k // d) % m) for k in range(lo, hi + 1)):
+                t = T.divc(i, d) if d > 1 else i
+                if m < (1 << 62):
+                    t = T.modc(t, m)
+                return T.add(t, a)
+        return None
 
     def store(self, st, p, val):
         if p is None:
@@ -392,9 +425,13 @@ class Executor:
         if isinstance(a, Ptr) and isinstance(b, Ptr):
             return a.oid == b.oid and a.path == b.path
         if isinstance(a, Iface) and isinstance(b, Iface):
+            if a.tid == -1 or b.tid == -1:
+                return a.tid == b.tid and a.val.what == b.val.what
             if self.prog.types[a.tid]['s'] != self.prog.types[b.tid]['s']:
                 return False
             return self.veq(a.val, b.val)
+        if isinstance(a, Opaque) and isinstance(b, Opaque):
+            return a.what == b.what
         if isinstance(a, float) and isinstance(b, float):
             return a == b
         raise Unsupported('veq %r %r' % (type(a), type(b)))
@@ -613,6 +650,7 @@ class Executor:
                 return arrived
             s = work.pop()
             T.set_ctx(s.refine)
+            T.Ctx.pc = s.pc
             while True:
                 if self.deadline is not None and time.time() > self.deadline:
                     self.obligations.append({'kind': 'budget', 'msg': 'time budget exhausted during exploration', 'verdict': 'unknown', 'pos': ''})
@@ -834,6 +872,21 @@ class Executor:
                     ghost[k] = self.merge_val(g1, ghost[k], v2, control=False)
                 elif k not in ghost:
                     ghost[k] = v2
+            # round-trip annotations of composed Decimals: a merged bit pattern keeps a merged annotation
+            a1 = [(k, v) for k, v in s1.ghost.items() if isinstance(k, tuple) and k and k[0] == 'composed' and len(v) == 5]
+            a2 = [(k, v) for k, v in s2.ghost.items() if isinstance(k, tuple) and k and k[0] == 'composed' and len(v) == 5]
+            if a1 and a2 and len(a1) * len(a2) <= 16:
+                for k1, v1 in a1:
+                    for k2, v2 in a2:
+                        if k1 == k2:
+                            continue
+                        try:
+                            lo = self.vite(g1, v1[3], v2[3])
+                            hi = self.vite(g1, v1[4], v2[4])
+                            rec = (self.vite(g1, v1[0], v2[0]), self.vite(g1, v1[1], v2[1]), self.vite(g1, v1[2], v2[2]), lo, hi)
+                            ghost[('composed', self._kid(lo), self._kid(hi))] = rec
+                        except ValueError:
+                            pass
         except ValueError:
             return None
         m = State()
@@ -879,7 +932,7 @@ class Executor:
             d = args[0]
             rec = st.ghost.get(('composed', self._kid(d[0]), self._kid(d[1])))
             if rec is not None:
-                neg, sig, exp = rec
+                neg, sig, exp = rec[:3]
                 N = T.add(sig[0], T.mulc(sig[1], W64))
                 ok = T.band(T.ge(exp, 0), T.le(exp, 12287), T.le(N, 5 * (1 << 111) - 1))
                 v = 'trivial' if ok is True else None
@@ -945,7 +998,7 @@ class Executor:
             L = fr.locals
             try:
                 key = ('composed', self._kid(rv[0]), self._kid(rv[1]))
-                st.ghost[key] = (L['neg'], L['sig'], L['exp'])
+                st.ghost[key] = (L['neg'], L['sig'], L['exp'], rv[0], rv[1])
             except KeyError:
                 pass
         caller.ip += 1
@@ -1394,6 +1447,15 @@ class Executor:
             if args[0] is None:
                 raise GoPanic('nil receiver')
             return args[0]
+        if name == 'SliceData':
+            return args[0]
+        if name == 'String':
+            s, n = args
+            n = self.concrete(st, n)
+            if s is None or n == 0:
+                return Str(())
+            arr = self._load_path(st, st.mem[s.oid], s.base)
+            return Str([arr[s.off + k] for k in range(n)])
         if name == 'recover':
             return None
         if name == 'print' or name == 'println':
@@ -1424,6 +1486,8 @@ class Executor:
             return x
         if sk == 'slice' and dk == 'slice':
             return x
+        if sk == 'slice' and dk == 'string':
+            return Opaque('string')
         from intrinsics import convert_float
         r = convert_float(self, st, x, src, dst)
         if r is not NotImplemented:
@@ -1509,6 +1573,8 @@ class Executor:
             return r if o == '==' else T.bnot(r)
         if k == 'string':
             if o == '+':
+                if isinstance(x, Opaque) or isinstance(y, Opaque):
+                    return Opaque('string')
                 return Str(x.b + y.b)
             raise Unsupported('string op ' + o)
         if k == 'float':
